@@ -789,6 +789,8 @@ func (la *lockAnalysis) runMode(ruleLock, ruleAtomic string, constructorNames ma
 			key := fmt.Sprintf("%s#call:%s", funcKey(la.pkg, c.fn), o.Name())
 			if c.lvl >= need {
 				r.ok(key, c.pos, fmt.Sprintf("calls %s holding %s", o.Name(), lvlName(c.lvl)))
+			} else if constructorNames[c.fn.Name.Name] {
+				r.ok(key, c.pos, fmt.Sprintf("calls %s while constructing the object (not shared yet)", o.Name()))
 			} else if _, callerIsHelper := requires[callerObj]; callerIsHelper && requires[callerObj] >= need {
 				r.ok(key, c.pos, fmt.Sprintf("calls %s from a helper that itself requires %s", o.Name(), lvlName(requires[callerObj])))
 			} else {
